@@ -148,8 +148,12 @@ impl SyncReadBuf {
                     let _ = inner.reserve_exact(new_capacity - capacity);
                 }
 
+                // Lend out no more room than is left below `max_buffer_size`: the spare
+                // capacity may be larger than that (up to `base_capacity` more), and the
+                // limit was only checked against the length before this read.
                 let len = inner.buf_len();
-                let read_slice = inner.slice(len..);
+                let end = inner.buf_capacity().min(self.max_buffer_size);
+                let read_slice = inner.slice(len..end);
                 stream.read(read_slice).await.into_inner()
             })
             .await?;
